@@ -9,8 +9,8 @@ are the logical steps every progress argument rests on: (1) the synchronizer alw
 on an accepted certificate for that or a later view; (2) a quorum of timeouts of one view always
 yields that view's certificate (C08); (3) the vote rules never refuse a well-formed proposal built
 on a certified block above the lock, once the replica knows the blocks; and the negative result
-(4): under the aggregate timeout rule a plain QC is ignored, which is why Fast-HotStuff as coded
-never refreshes its high QC (known finding).  The end-to-end claim is judged on the real replicas
+(4): under the aggregate timeout rule a plain QC refreshes the high QC but cannot move the view
+(since `fix:` 4f3d40f; before, it was ignored altogether).  The end-to-end claim is judged on the real replicas
 by the `clusterlive` oracle. -/
 open Std.Do
 namespace HsVerif.Props.C05
@@ -72,11 +72,21 @@ theorem fast_votes_next_view (s : HsVerif.Model.Rules.Store) (b : HsVerif.Model.
     (hcur : b.view ≥ cur) (hn : b.view = b.qcView + 1) : fastVote s cur b false = true :=
   (HsVerif.Props.C04.fast_vote_plain_eq_spec s cur b).2 ⟨hn, hcur⟩
 
-/-- **(4) Known finding, at model level**: with aggregate QCs configured (Fast-HotStuff), a sync
-info that carries only a quorum certificate is accepted with NO certificate and view 0 — whatever
-the certificate: it can neither refresh the high QC nor move the view. -/
-theorem aggregate_rule_ignores_plain_qc (k : Keys) (c : RCfg) (hc : c.agg = true) (q : QC) (s : RState) :
-    ((verifySyncInfo k c { qc := some q, tc := none, agg := none }).run s).1 = VRes.ok (none, 0, false) := by
-  simp [verifySyncInfo, hc, StateT.run, Id.run, pure, bind, StateT.bind, StateT.pure]
+/-- **(4) The aggregate timeout rule and plain quorum certificates** (as repaired by `fix:` 4f3d40f;
+before, the answer was `ok (none, 0, false)` whatever the certificate, so the high QC of a
+Fast-HotStuff replica never moved and a Byzantine leader could fork below voted blocks —
+corpus/cluster/02): a sync info that carries only a quorum certificate is rejected when the
+certificate does not verify, and otherwise accepted with THAT certificate as high-QC candidate and
+certified view 0 — it refreshes the high QC but, every current view being at least 1, cannot move
+the view (the repository's TestAdvanceView demands the latter). -/
+theorem aggregate_rule_plain_qc (k : Keys) (c : RCfg) (hc : c.agg = true) (q : QC) (s : RState) :
+    ((verifySyncInfo k c { qc := some q, tc := none, agg := none }).run s).1 =
+      if ((verifyQCM k c q).run s).1 = true then VRes.ok (some q, 0, false) else VRes.reject := by
+  simp only [verifySyncInfo, hc, StateT.run, pure, bind, StateT.bind, if_true]
+  split
+  next a s' heq =>
+    have h1 : (verifyQCM k c q s).fst = a := by rw [heq]
+    simp only [h1]
+    cases a <;> rfl
 
 end HsVerif.Props.C05
